@@ -53,11 +53,11 @@ ASSUMPTIONS = [
 BOUND = {
     "quick": ("rows 1..3; one column: 9 families (bool,int,float,str,date,datetime[us],datetime[s],datetime[ms],datetime[ns]) over NA + 3 values "
               "(bool 2); two columns: all 36 ordered family pairs of bool/int/float/str/date/datetime[us] over NA + 3 values (bool 2) with "
-              "rows 1..2 and over NA + 2 values with 3 rows; every mask; converters lod, json, json_dtypes (temporal frames), pandas, arrow"),
+              "rows 1..2 and over NA + 2 values with 3 rows; every mask; converters lod, json, json_dtypes (from_json with the dtype of every column), pandas, arrow"),
     "thorough": ("rows 1..4; one column: the 9 families over NA + 4..9 values (incl. inf, -0.0, int64 min, 2**53+1, 50-char / "
                  "non-ASCII / quote / newline / backslash / 'None' / 'nan' strings, year 1 and 9999 dates); two columns: all 36 ordered "
                  "family pairs over NA + 3 values (bool 2) with rows 1..3 and over NA + 2 values with 4 rows; every mask; "
-                 "converters lod, json, json_dtypes (temporal frames), pandas, arrow"),
+                 "converters lod, json, json_dtypes (from_json with the dtype of every column), pandas, arrow"),
 }
 TIME_CAP = {"quick": 240, "thorough": 3000}
 EXPLANATION = ("Every execution runs the real exporter and importer; the reference is the list of Python cells read from the "
@@ -284,7 +284,9 @@ class Ctx:
         if list(self.d.keys()) != self.names or any(self.d[name].dtype != self.arrays[name].dtype for name in self.names):
             raise RuntimeError(f"harness: constructor did not keep the columns as given: {V.frame_key(self.d)!r}")
         self.before = V.frame_key(self.d)
-        self.temporal = [(name, str(self.arrays[name].dtype)) for name, fam, toks in cols if fam in UNITS]
+        # json_dtypes: the type of EVERY column is handed to from_json (str for string columns, as a caller writes it;
+        # the NumPy dtype name otherwise) - needed for temporal columns, harmless for the others
+        self.temporal = [(name, str if fam == "str" else str(self.arrays[name].dtype)) for name, fam, toks in cols]
         self.fam_of = {name: fam for name, fam, toks in cols}
         self.cls_of = {name: f"{fam}:{mask_class(toks)}" for name, fam, toks in cols}
 
@@ -368,8 +370,7 @@ def observe(ctx, conv):
 
 def convs_for(cols):
     convs = list(CONVS)
-    if any(fam in UNITS for name, fam, toks in cols):
-        convs.insert(2, "json_dtypes")
+    convs.insert(2, "json_dtypes")
     return convs
 
 
